@@ -72,6 +72,7 @@ def run_case(case):
     roots = ['']
     pargs = [('--path', '')]
     multi = False
+    tp_outer = None
     r = rng.random()
     ident_tops = [t for t in tops if trees.IDENT.match(t)]
     if r < 0.15:
@@ -79,10 +80,20 @@ def run_case(case):
         multi = True
     elif r < 0.4 and ident_tops:
         nested = rng.choice(ident_tops)
-        if rng.random() < 0.5:
+        r2 = rng.random()
+        if r2 < 0.35:
             pargs = [('--path', nested), ('--path', '')]
-        else:
+        elif r2 < 0.7:
             pargs = [('--path', ''), ('--path', nested)]
+        else:
+            # "--test-path checkout --path checkout/src": the outer
+            # directory is only searched, the inner one is also on sys.path;
+            # what lies below the inner one must be loaded under the name
+            # relative to it (the longest enclosing search path)
+            pargs = [('--test-path', ''), ('--path', nested)]
+            if rng.random() < 0.5:
+                pargs.reverse()
+            tp_outer = nested
         multi = True
     # options.test_path = test_path entries, then path entries
     roots = [p for o, p in pargs if o == '--test-path'] + \
@@ -125,11 +136,20 @@ def run_case(case):
         roots = ['']
         argv += ['--path', root]
         multi = False
+        tp_outer = None
         want = trees.expected_discovery(files, roots, tp, fpat, ign,
                                         start_dirs)
         mods = [m for _, m in want]
     mpats = None
     optional = set()
+    unimportable = set()
+    if tp_outer:
+        # files outside the inner directory are found but cannot be
+        # imported (their root is not on sys.path): import failures
+        unimportable = {f for f, m in want
+                        if not f.startswith(tp_outer + '/')}
+        want = [(f, m) for f, m in want if f not in unimportable]
+        mods = [m for _, m in want]
     if mods and rng.random() < 0.3:
         mpats = gen.random_patterns(rng, mods, maxn=2)
         for p in mpats:
@@ -198,7 +218,10 @@ def run_case(case):
             if n != 1:
                 V('selected-module-not-imported-once', 'discovery-selected',
                   file=f, count=n, out=r.out[-400:] if n == 0 else None)
-        decoys = py_files - set(want_files) - optional
+        decoys = py_files - set(want_files) - optional - unimportable
+        if tp_outer:
+            C('test_path_outer_cases')
+            C('test_path_outer_selected', len(want_files))
         C('decoys_checked', len(decoys))
         for f in sorted(decoys):
             if f in cand_imports:
